@@ -311,6 +311,10 @@ def main(argv=None):
         os.makedirs(os.path.join(ROOT, "evidence"), exist_ok=True)
         with open(os.path.join(ROOT, "evidence", pid + ".json"), "w") as f:
             json.dump(ev, f, indent=1, sort_keys=True, default=str)
+        if args.tier == "thorough":     # keep the record of the last thorough run next to the (usually quick) evidence file
+            os.makedirs(os.path.join(ROOT, "evidence", "thorough"), exist_ok=True)
+            with open(os.path.join(ROOT, "evidence", "thorough", pid + ".json"), "w") as f:
+                json.dump(ev, f, indent=1, sort_keys=True, default=str)
     if violations:
         return 1
     if harness_errors:
